@@ -33,6 +33,7 @@ type Task struct {
 	label   string
 	blocked string
 	auto    bool
+	atomic  bool
 	entry   string
 	Yields  int
 	Panic   any
@@ -84,6 +85,13 @@ type Sched struct {
 
 	Tape   *Tape
 	Policy Policy
+	// AtomicMarkers: a goroutine the system started whose stack (at its first
+	// yield) contains one of these strings runs as one atomic step: its yields
+	// do not park. Used where the system iterates a Go map between yields (GC
+	// over several named part stores), which would otherwise leak map order
+	// into the schedule.
+	AtomicMarkers []string
+	AtomicYields  int
 
 	Step       int
 	MaxSteps   int
@@ -216,19 +224,32 @@ func (s *Sched) park(label, blocked string) {
 	t := s.byGoid[g]
 	if t == nil {
 		s.mu.Unlock()
-		entry, parent := goroutineOrigin()
+		entry, parent, stack := goroutineOrigin()
+		atomic := false
+		for _, m := range s.AtomicMarkers {
+			if strings.Contains(stack, m) {
+				atomic = true
+			}
+		}
 		s.mu.Lock()
 		if s.closed {
 			s.mu.Unlock()
 			return
 		}
-		t = &Task{goid: g, resume: make(chan struct{}), auto: true, entry: entry, Locals: map[string]any{}}
+		t = &Task{goid: g, resume: make(chan struct{}), auto: true, entry: entry, Locals: map[string]any{}, atomic: atomic}
 		if p := s.byGoid[parent]; p != nil {
 			t.parent = p
 		}
 		s.byGoid[g] = t
 		s.tasks = append(s.tasks, t)
 		s.unnamed = append(s.unnamed, t)
+	}
+	if t.atomic && blocked == "" {
+		// this goroutine's work is one atomic scheduler step: it never parks
+		// voluntarily (it still parks when it must wait for a resource)
+		s.AtomicYields++
+		s.mu.Unlock()
+		return
 	}
 	t.state = stParked
 	t.label = label
@@ -585,3 +606,15 @@ func (s *Sched) Closed() bool {
 
 // Descends reports whether t is a or was (transitively) started by a.
 func Descends(t, a *Task) bool { return t.descendsFrom(a) }
+
+// AllTasksDone reports whether every client task (started with Go) has finished.
+func (s *Sched) AllTasksDone() bool {
+	s.mu.Lock()
+	defer s.mu.Unlock()
+	for _, t := range s.tasks {
+		if !t.auto && t.state != stDone {
+			return false
+		}
+	}
+	return true
+}
